@@ -1,9 +1,125 @@
-import Ivg.Model.Decoder
+import Ivg.Lemmas.Selectors
 import Ivg.Model.Arc
-import Ivg.Model.MdIcons
 import Ivg.Gen.Tie
 import Ivg.Obligations
-/-! # Property C07 — theorems (work in progress: tie obligations only so far) -/
+/-!
+# C07 — selector clause: the Encoder and the Renderer report the same CSEL / NSEL
+
+Property text (selector clause): "At every point of the sequence the CSEL and NSEL values reported by
+an Encoder equal, modulo 64, those reported by a Renderer fed the same calls, i.e. the values the
+decoding machine will hold at that point of the stream."
+
+The decoding machine's selectors are specified by `Selectors.vmSel` (from the format specification:
+0 after the metadata, "Set CSEL/NSEL" store the low six bits, the incrementing forms of "Set
+CREG/NREG" add one modulo 64, nothing else touches them).  The theorems are about the executable
+models `Ivg.Enc.Encoder` (`CSel()`/`NSel()` report the fields `cSel`/`nSel`, see `reads_report`) and
+`Ivg.Ren.Renderer` (`CSel()`/`NSel()` return the fields), for ANY arc implementation and any wide
+number type.
+-/
 namespace Ivg.Props.C07
+open Ivg Ivg.Num Ivg.Enc Ivg.Ren Ivg.Selectors Ivg.EncoderProto
+
+section
+variable {β : Type} [Arith β] [Wide F32 β]
+
+/-- The selector clause, from the zero values: at every point `p` (prefix) of a call sequence `h`
+    whose calls the Encoder accepts, the CSEL and NSEL held by the Encoder equal those held by a
+    Renderer fed the same calls.  Both sides are 6-bit values (`encoder_selectors_6bit`,
+    `renderer_selectors_6bit`), so "modulo 64" is plain equality.  The hypothesis is necessary: the
+    Encoder ignores a rejected call, the Renderer does not (example below); it is implied by the
+    sequence being violation free (`accepted_of_violationFree`) and, for a sequence without Reset, by
+    the absence of an error at the end (`accepted_of_final`). -/
+theorem sel_agree (arc : ArcFn F32 β) (posInf : F32) (h : List (Call F32))
+    (herr : ∀ p, p <+: h → (({} : Encoder).run p).err = none) (p : List (Call F32)) (hp : p <+: h) :
+    (({} : Encoder).run p).cSel = ((Renderer.zero : Renderer F32 β).run arc posInf p).1.cSel ∧
+    (({} : Encoder).run p).nSel = ((Renderer.zero : Renderer F32 β).run arc posInf p).1.nSel :=
+  Selectors.sel_agree arc posInf h herr p hp
+
+/-- The same after a Reset, from ANY Encoder state and ANY Renderer state. -/
+theorem sel_agree_after_reset (arc : ArcFn F32 β) (posInf : F32) (e : Encoder) (z : Renderer F32 β)
+    (vb : ViewBox F32) (pal : Palette) (h : List (Call F32))
+    (herr : ∀ p, p <+: h → ((e.step (.reset vb pal)).run p).err = none) (p : List (Call F32)) (hp : p <+: h) :
+    (e.run (.reset vb pal :: p)).cSel = (z.run arc posInf (.reset vb pal :: p)).1.cSel ∧
+    (e.run (.reset vb pal :: p)).nSel = (z.run arc posInf (.reset vb pal :: p)).1.nSel :=
+  Selectors.sel_agree_after_reset arc posInf e z vb pal h herr p hp
+
+end
+
+/-- the hypothesis of `sel_agree` in terms of the protocol automaton of C10 -/
+theorem accepted_of_violationFree (h : List (Call F32))
+    (hv : Spec.Protocol.ViolationFree .fresh (h.map Spec.Protocol.classifyCall)) :
+    ∀ p, p <+: h → (({} : Encoder).run p).err = none := err_none_of_violationFree h hv
+
+/-- … and, for a sequence without Reset, in terms of the final state only -/
+theorem accepted_of_final (h : List (Call F32)) (hnr : ∀ c ∈ h, Spec.Protocol.classifyCall c ≠ .reset)
+    (hend : (({} : Encoder).run h).err = none) :
+    ∀ p, p <+: h → (({} : Encoder).run p).err = none := err_none_of_final h hnr hend
+
+/-- a sequence that dirties both selectors, wraps NSEL around, and draws a path -/
+def exampleCalls : List (Call F32) :=
+  [.setCSel 200, .setCReg 0 true (Color.rgbaColor ⟨0, 0, 0, 0xff⟩), .setNSel 63, .setNReg 0 true F32.zero,
+   .startPath 2 F32.zero F32.zero, .d1 .h F32.zero, .closeEnd, .setCReg 6 false (Color.paletteIndexColor 3)]
+set_option maxRecDepth 100000 in
+example : ∀ p, p <+: exampleCalls → (({} : Encoder).run p).err = none :=
+  accepted_of_final exampleCalls (by decide) (by decide +kernel)
+set_option maxRecDepth 100000 in
+example : (({} : Encoder).run exampleCalls).cSel = 9 ∧ (({} : Encoder).run exampleCalls).nSel = 0 := by
+  decide +kernel
+-- without the hypothesis the two disagree: the Encoder ignores the rejected SetCSel, a Renderer obeys it
+set_option maxRecDepth 100000 in
+example : (({} : Encoder).run [.startPath 0 F32.zero F32.zero, .setCSel 5]).cSel = 0 ∧
+    vmSelRun (0, 0) [Call.startPath 0 F32.zero F32.zero, .setCSel 5] = (5, 0) := by
+  decide +kernel
+
+/-- Each machine follows the specification of the decoding machine's selectors, call by call:
+    the Renderer always; the Encoder whenever it accepts the call (`err = none` afterwards). -/
+theorem both_follow_vm {α β : Type} [Arith α] [Arith β] [Wide α β]
+    (arc : ArcFn α β) (posInf : α) (z : Renderer α β) (c : Call α) (e : Encoder) (c' : Call F32) :
+    ((z.step arc posInf c).1.cSel, (z.step arc posInf c).1.nSel) = vmSel (z.cSel, z.nSel) c ∧
+    ((e.step c').err = none → ((e.step c').cSel, (e.step c').nSel) = vmSel (e.cSel, e.nSel) c') :=
+  ⟨renderer_sel arc posInf z c, encoder_sel e c'⟩
+example : ((({} : Encoder).step (.setCReg 3 false (Color.rgbaColor ⟨0, 0, 0, 0xff⟩))).err = none) := by decide
+
+/-- `vmSel` is arithmetic modulo 64 (also across the byte wrap-around) and stays below 64. -/
+theorem vm_mod64 (v : UInt8) {α : Type} (s : UInt8 × UInt8) (c : Call α) :
+    ((v + 1) % 64).toNat = (v.toNat + 1) % 64 ∧ (v % 64).toNat = v.toNat % 64 ∧ v &&& 0x3f = v % 64 ∧
+    (s.1 < 64 ∧ s.2 < 64 → (vmSel s c).1 < 64 ∧ (vmSel s c).2 < 64) :=
+  ⟨succ_mod64_toNat v, by simp [UInt8.toNat_mod], and_3f v, vmSel_lt s c⟩
+
+/-- The Renderer's selectors are 6-bit values after any call sequence from the zero value … -/
+theorem renderer_selectors_6bit {α β : Type} [Arith α] [Arith β] [Wide α β]
+    (arc : ArcFn α β) (posInf : α) (cs : List (Call α)) :
+    ((Renderer.zero : Renderer α β).run arc posInf cs).1.cSel < 64 ∧
+    ((Renderer.zero : Renderer α β).run arc posInf cs).1.nSel < 64 :=
+  Selectors.renderer_selectors_6bit arc posInf cs
+
+/-- … and so are the Encoder's after any history over its whole API (accepted or not). -/
+theorem encoder_selectors_6bit (ops : List EncOp) :
+    (({} : Encoder).runOps ops).1.cSel < 64 ∧ (({} : Encoder).runOps ops).1.nSel < 64 :=
+  Selectors.encoder_selectors_6bit ops
+
+/-- What `CSel()` / `NSel()` report is the selector held, in every state; the reads (like `LOD()`,
+    `Bytes()` and assignments to `HighResolutionCoordinates`) do not move the selectors. -/
+theorem reads_report (e : Encoder) :
+    (e.stepOp .readCSel).2 = some (.sel e.cSel) ∧ (e.stepOp .readNSel).2 = some (.sel e.nSel) ∧
+    ∀ op, (∀ c, op ≠ .call c) → ((e.stepOp op).1.cSel, (e.stepOp op).1.nSel) = (e.cSel, e.nSel) :=
+  ⟨(read_reports e).1, (read_reports e).2, fun op hop => esel_stepOp e op hop⟩
+
+/-!
+## Not proved in this file
+
+* "rendering directly equals rendering via encode + decode" (the first clause of C07) depends on the
+  encode/decode round trip C01 and is not addressed here.
+* The Generator and DestinationLogger clauses of C07 (selector tracking in `generate.Generator`, the
+  pass-through of a logging destination) are not addressed here.
+* That `vmSel` is what the DECODER holds is by reading the format specification; the decoder model
+  (`Ivg/Model/Decoder.lean`) delivers calls and keeps no selector state of its own.
+-/
+
 end Ivg.Props.C07
-#obligations C07 [Ivg.Gen.Tie.drawOps_tie, Ivg.Gen.Tie.magic_tie, Ivg.Gen.Tie.errorStrings_tie]
+
+#obligations C07 [
+  Ivg.Props.C07.sel_agree, Ivg.Props.C07.sel_agree_after_reset, Ivg.Props.C07.accepted_of_violationFree,
+  Ivg.Props.C07.accepted_of_final, Ivg.Props.C07.both_follow_vm, Ivg.Props.C07.vm_mod64,
+  Ivg.Props.C07.renderer_selectors_6bit, Ivg.Props.C07.encoder_selectors_6bit, Ivg.Props.C07.reads_report,
+  Ivg.Gen.Tie.encoder_fields_tie, Ivg.Gen.Tie.renderer_fields_tie]
